@@ -61,12 +61,12 @@ CLAIMS.update({
    ref="DESIGN.md section 4 C06"),
  "C11": dict(
    technique="symbolic store summaries of split_edge/merge_edge prefixes (LF engine), syntactic effect rule on pos_, side-tag dataflow for labels, dominance rules for selectivity",
-   text="Decides for all operand values and all six configurations: split_edge conserves p_a+p_b (2/3,2/3,1/3+1/3) and merge_edge gives the new node p_a+p_b; the added node is at the midpoint of the edge's own end nodes; no function in refine_mesh's callee closure mutates pos_ of an existing node; each face created by a split receives the label of the parent triangle on its own side; split/merge/swap are only reached under l2 > l_max^2, l2 < l_min^2 and can_be_merged, score < threshold and the enable flag, with l2 the squared length of that very edge and thresholds the squares of the constructor arguments. Also: refine_mesh's work loop is bounded by its operation counter, every pass pops an edge first, every refilling call is counted, and no counted for-loop of the refinement closure changes its own induction variable; get_triangle_score measures the three distinct edges and returns a longest one in every branch (decided over all weak orderings of the three lengths).",
+   text="Decides for all operand values and all six configurations: split_edge conserves p_a+p_b (2/3,2/3,1/3+1/3) and merge_edge gives the new node p_a+p_b; the added node is at the midpoint of the edge's own end nodes; no function in refine_mesh's callee closure mutates pos_ of an existing node; each face created by a split receives the label of the parent triangle on its own side; split/merge/swap are only reached under l2 > l_max^2, l2 < l_min^2 and can_be_merged, score < threshold and the enable flag, with l2 the squared length of that very edge and thresholds the squares of the constructor arguments. Also: refine_mesh's work loop is bounded by its operation counter, every pass pops an edge first, every refilling call is counted, and no counted for-loop of the refinement closure changes its own induction variable; get_triangle_score measures the three distinct edges and returns a longest one in every branch (decided over all weak orderings of the three lengths). Also: the work list of refine_mesh is copied after the swap stage; split / merge happen only while the operation counter is below its bound (also for for(;;) + break).",
    note="Termination of the refinement loop rests on geometry and is not decided; nor are volume/area effects. cell::add_node/replace_node are not opened: the ledgers are on the values handed to them.",
    ref="DESIGN.md section 4 C11"),
  "C20": dict(
    technique="normal forms of the grids' index arithmetic (LF engine) with sibling agreement across uspg_abstract/uspg_3d/uspg_4d instantiations; arithmetic-width rule",
-   text="Decides for every instantiated grid class: every voxel flattening is x + y*nx + z*nx*ny with axis-consistent indices and computed in size_t (as is the total voxel count); every quantisation is floor((coord - min_axis)/voxel_size) of the matching axis; update_dimensions assigns counts, origin and extent axis-consistently and sizes the storage with nx*ny*nz; get_grid_content visits [0,n) and get_neighborhood [i-1,i+2) clamped, per axis; every quantised coordinate anywhere in the product (grid classes, store_face_in_uspg, the contact look-ups) is limited to the last voxel of its axis before it addresses a voxel - the count is ceil(extent/size), so floor((max-min)/size) is one past the end whenever the extent is a multiple of the voxel size (found D20, repaired) - or is the open end of a range closed by a limited index, or a node position that the positive box padding keeps inside; the region grid of the polarizer, whose ray marching steps to the next voxel without a bounds test, extends two voxel sizes beyond the node extrema.",
+   text="Decides for every instantiated grid class: every voxel flattening is x + y*nx + z*nx*ny with axis-consistent indices and computed in size_t (as is the total voxel count); every quantisation is floor((coord - min_axis)/voxel_size) of the matching axis; update_dimensions assigns counts, origin and extent axis-consistently and sizes the storage with nx*ny*nz; get_grid_content visits [0,n) and get_neighborhood [i-1,i+2) clamped, per axis; every quantised coordinate anywhere in the product (grid classes, store_face_in_uspg, the contact look-ups) is limited to the last voxel of its axis before it addresses a voxel - the count is ceil(extent/size), so floor((max-min)/size) is one past the end whenever the extent is a multiple of the voxel size (found D20, repaired) - or is the open end of a range closed by a limited index, or a node position that the positive box padding keeps inside; the region grid of the polarizer, whose ray marching steps to the next voxel without a bounds test, extends two voxel sizes beyond the node extrema. Also: no guard that survives NDEBUG excludes a face of the declared box; a neighbourhood / content query never answers from a data member kept from an earlier call.",
    note="Decided in real arithmetic on the expression forms; floating-point rounding of the quotient itself (a coordinate within one ulp below a voxel boundary) is not modelled. Geometric completeness of the 27-voxel neighbourhood follows from the loop ranges plus the quantisation form and is argued in DESIGN, not mechanised.",
    ref="DESIGN.md section 4 C20"),
 })
@@ -82,7 +82,7 @@ CLAIMS.update({
 CLAIMS.update({
  "C04": dict(
    technique="store summaries and clamp-idiom matching (LF engine), call-order and override rules over clang AST",
-   text="Decides: update_target_volume is V_t += dt*growth_rate_ then clamp-below on the type's min_vol_; update_pressure is -K*log(V/V_t) then clamp-above on max_pressure_; apply_internal_forces refreshes geometry, area, volume, target volume, pressure and only then applies forces; is_ready_to_divide is false in the base and volume_ >= division_volume_ in epithelial_cell only; each drawn property is clamped to mean +/- 3 std of its own distribution; removal uses volume_ < min_vol_ after the position update, clears the cells, and the population only grows through cell_divider::run; the initial target volume is V*exp(p0/K) followed by update_pressure.",
+   text="Decides: update_target_volume is V_t += dt*growth_rate_ then clamp-below on the type's min_vol_; update_pressure is -K*log(V/V_t) then clamp-above on max_pressure_; apply_internal_forces refreshes geometry, area, volume, target volume, pressure and only then applies forces; is_ready_to_divide is false in the base and volume_ >= division_volume_ in epithelial_cell only; each drawn property is clamped to mean +/- 3 std of its own distribution; removal uses volume_ < min_vol_ after the position update, clears the cells, and the population only grows through cell_divider::run; the initial target volume is V*exp(p0/K) followed by update_pressure. Also: the division trigger compares the cell's current volume (not its target volume) with the division volume.",
    note="Behaviour over volume trajectories ('never reappears' over histories, NaN/inf of the logarithm) is not decided; clamps are matched as idioms, branch conditions are not interpreted.",
    ref="DESIGN.md section 4 C04"),
  "C12": dict(
@@ -103,7 +103,7 @@ CLAIMS.update({
 CLAIMS.update({
  "C18": dict(
    technique="binding-table extraction by dataflow over clang AST (string literal -> get_string_value -> optional -> conversion -> field) compared with frozen reference tables; consumer (who-reads-which-field) table",
-   text="Decides for all 31 XML tags: the tag is presence-tested (throwing) before use, converted with the right function, stored in the field of that name, lower-cased/INF-mapped exactly for the two documented tags, and every sign validation tests the field just assigned with the documented comparison; cell and face types are appended in document order; every parameter field is consumed at the site the frozen consumer table names (time step -> integrator and growth, duration -> run loop, sampling period -> save_mesh, edge length -> refiner/divider/contact grid/initial triangulation, swap flag -> refiner, biomechanical fields -> the force routines of the matching kind; repulsive/adhesive contact blocks read repulsion/adherence strength). The binding table is extracted by value flow (tag literal -> optional -> dominating presence test with throw -> conversions -> field, through locals, reference locals, helpers and constant tables), so it is independent of statement order, nesting and splitting into helpers.",
+   text="Decides for all 31 XML tags: the tag is presence-tested (throwing) before use, converted with the right function, stored in the field of that name, lower-cased/INF-mapped exactly for the two documented tags, and every sign validation tests the field just assigned with the documented comparison; cell and face types are appended in document order; every parameter field is consumed at the site the frozen consumer table names (time step -> integrator and growth, duration -> run loop, sampling period -> save_mesh, edge length -> refiner/divider/contact grid/initial triangulation, swap flag -> refiner, biomechanical fields -> the force routines of the matching kind; repulsive/adhesive contact blocks read repulsion/adherence strength). The binding table is extracted by value flow (tag literal -> optional -> dominating presence test with throw -> conversions -> field, through locals, reference locals, helpers and constant tables), so it is independent of statement order, nesting and splitting into helpers. Also: a mesh cell of type id k is built with the k-th cell type of the parameter file; a validation must not be switched off by another condition; the run loop is bounded by the duration itself.",
    note="Reference tables are frozen in the checker from doc/parameter_file_doc.md and the struct definitions; rows added to the reader are tolerated. std::stod's numeric parsing of arbitrary magnitudes is not decided.",
    ref="DESIGN.md section 4 C18, section 3 E5"),
 })
@@ -111,7 +111,7 @@ CLAIMS.update({
 CLAIMS.update({
  "C19": dict(
    technique="sibling / table rules over the writers' operator<< chains and mapper table, schedule and file-number rules (LF engine for floor(t/S)+1)",
-   text="Decides: in both statistics writers header and rows have the same fixed columns, each followed by the separator, range over the same mapper list (name vs extractor applied to the row's own cell) and end with exactly one newline (per header / per cell row), and the two writers agree; the columns cell_id, type_id, area, volume, target_volume, pressure come from the getter of that quantity and each getter returns the field of that name; statistics are written under iteration_ % 50 == 0 and once after the run loop, iteration_ is incremented exactly once per iteration; save_mesh computes floor(t/S)+1, writes only on change after storing the number, builds the cell-data and face-data paths from that same stored number, hands over the current population, and is the first action of every iteration. Also: no function on the cone of the concurrent file-writing sections formats through a mutable function-local static buffer. The header/row agreement is decided on emission traces (what is written, whether streamed piecewise or assembled in a string).",
+   text="Decides: in both statistics writers header and rows have the same fixed columns, each followed by the separator, range over the same mapper list (name vs extractor applied to the row's own cell) and end with exactly one newline (per header / per cell row), and the two writers agree; the columns cell_id, type_id, area, volume, target_volume, pressure come from the getter of that quantity and each getter returns the field of that name; statistics are written under iteration_ % 50 == 0 and once after the run loop, iteration_ is incremented exactly once per iteration; save_mesh computes floor(t/S)+1, writes only on change after storing the number, builds the cell-data and face-data paths from that same stored number, hands over the current population, and is the first action of every iteration. Also: no function on the cone of the concurrent file-writing sections formats through a mutable function-local static buffer. The header/row agreement is decided on emission traces (what is written, whether streamed piecewise or assembled in a string). Also: the statistics rows are in the file when write_data returns (local stream, or flush / close).",
    note="K within one of T/S+1 depends on floating-point accumulation of the simulated time and is not decided; neither is parseability of the written files (see C16).",
    ref="DESIGN.md section 4 C19"),
 })
@@ -119,7 +119,7 @@ CLAIMS.update({
 CLAIMS.update({
  "C16": dict(
    technique="writer/reader binding-table agreement: string templates of the writer's emissions vs the reader's regex literals, declared-count vs emitting-loop agreement, extracted from clang AST",
-   text="Decides table agreement between mesh_writer and mesh_reader: every section line the writer emits (POINTS n float, CELLS a b, CELL_TYPES n, the cell_type_id field header) is matched by the reader's regex for that section, the declared coordinate type is accepted, the %.4e tokens are matched entirely by the reader's number regex and not cut by its end-of-section detector; declared counts agree with the emitting loops (points = sum of node_lst sizes with three coordinates per node, per-cell record 1+4F with literal 3 and get_node_ids() of size 3 plus the cell's own node offset, CELLS/CELL_TYPES counts, data-array lengths, cell_type_id from global_type_id_); the reader requires type 42 and verifies record lengths. Also: mesh overload of write_cell_data: the declared record length sums the node counts of ALL faces. Also: a cell record of the CELLS section is ended by exactly one newline at the level of the loop over the cells (the reader takes every line as one record).",
+   text="Decides table agreement between mesh_writer and mesh_reader: every section line the writer emits (POINTS n float, CELLS a b, CELL_TYPES n, the cell_type_id field header) is matched by the reader's regex for that section, the declared coordinate type is accepted, the %.4e tokens are matched entirely by the reader's number regex and not cut by its end-of-section detector; declared counts agree with the emitting loops (points = sum of node_lst sizes with three coordinates per node, per-cell record 1+4F with literal 3 and get_node_ids() of size 3 plus the cell's own node offset, CELLS/CELL_TYPES counts, data-array lengths, cell_type_id from global_type_id_); the reader requires type 42 and verifies record lengths. Also: mesh overload of write_cell_data: the declared record length sums the node counts of ALL faces. Also: a cell record of the CELLS section is ended by exactly one newline at the level of the loop over the cells (the reader takes every line as one record). Also: every cell is compacted (rebase) before any writer takes counts from it.",
    note="Equality of the tissue after a round trip and precision of %.4e are value-level and not decided. Reader regexes are evaluated with Python's re (they only use constructs common to both dialects).",
    ref="DESIGN.md section 4 C16"),
 })
